@@ -341,6 +341,17 @@ func init() {
 		}
 		return StrVal{S: n}, ctlRet
 	})
+	regRepo("vhCoroBlockedOn", func(ex *Exec, st *State, fr *Frame, args []Value) (Value, ctlT) {
+		i := ex.intArg(st, args[0], "coroutine index")
+		if i < 1 || i >= len(st.coros) {
+			unsup("vhCoroBlockedOn(%d): no such coroutine", i)
+		}
+		c := st.coros[i]
+		if c.status != CoBlocked {
+			return StrVal{}, ctlRet
+		}
+		return StrVal{S: c.blockOn}, ctlRet
+	})
 	regRepo("vhRun", func(ex *Exec, st *State, fr *Frame, args []Value) (Value, ctlT) {
 		i := ex.intArg(st, args[0], "coroutine index")
 		if i < 1 || i >= len(st.coros) {
